@@ -427,7 +427,33 @@ def g_dividend_for(rng, K, b, top=None):
     return a if a < Bk else (q * b if q * b < Bk else rem)
 
 
+def d32_corrections(beta, a2, a1, a0, b1, b0):
+    """number of quotient corrections div_3_2 performs on these digits (generator aid only: used to aim draws at the
+    rare two-correction path, never to decide a verdict)"""
+    ret = False
+    if a2 < b1:
+        q, c = divmod(a2 * beta + a1, b1)
+    else:
+        q, c = beta - 1, a1 + b1
+        if c >= beta:
+            c -= beta; ret = True
+    d1, d0 = divmod(q * b0, beta)
+    if ret or not (d1 > c or (d1 == c and d0 > a0)):
+        return 0
+    R = ((c * beta + a0) - (d1 * beta + d0)) % (beta * beta)
+    return 2 if R + b1 * beta + b0 < beta * beta else 1
+
+
 def g_two_corrections(rng, beta):
+    best = None
+    for _ in range(10):
+        best = _g_two_corrections(rng, beta)
+        if d32_corrections(beta, *best) == 2:
+            break
+    return best
+
+
+def _g_two_corrections(rng, beta):
     """(a2,a1,a0,b1,b0) in base beta: b1 barely normalised, b0 close to beta-1, large quotient, and a remainder whose low
     digit is b0 (+-1): the quotient estimate is then two too large in about a quarter of the draws, and the low digit of
     the remainder after the first correction is exactly 0 (+-1)"""
@@ -755,7 +781,9 @@ def case_count(v, info, K, tier):
         base = {6: 6, 7: 4, 8: 2}.get(K, 0) if q else {6: 60, 7: 40, 8: 20, 9: 6, 10: 2, 11: 1}[K]
     elif "heavy" in fl:
         base = {6: 8, 7: 8, 8: 6, 9: 4, 10: 2, 11: 2}[K] if q else {6: 200, 7: 200, 8: 100, 9: 60, 10: 20, 11: 10}[K]
-    elif info["gen"] in ("div", "div21", "div32", "modn", "sdiv", "sdivr", "divw", "divw63"):
+    elif info["gen"] in ("div21", "div32"):
+        base = (48 if K <= 8 else 16 if K == 9 else 6) if q else (2000 if K <= 9 else 200)
+    elif info["gen"] in ("div", "modn", "sdiv", "sdivr", "divw", "divw63"):
         base = (16 if K <= 9 else 6) if q else (600 if K <= 9 else 100)
     return base
 
